@@ -319,9 +319,12 @@ func gErrExpr(c *Ctx, rule string) {
 						continue
 					}
 					arg := ""
-					for _, a := range nd.Args {
+					for k, a := range nd.Args {
 						if t := g.info.TypeOf(a); t != nil && types.Identical(t, g.exprType) {
 							arg = types.ExprString(a)
+							if k < len(nd.ArgText) {
+								arg = nd.ArgText[k]
+							}
 						}
 					}
 					key := gf.Key + "|handler-for:" + arg
